@@ -1,5 +1,127 @@
 import BigtreeModel.Proto
-/-! Driver handler for property C07: one case (token list) in, one canonical line out. -/
+import BigtreeModel.CopyStore
+/-! Driver handler for property C07 (readers never alter or alias their input).
+
+`fn=<copy|clone|subtree|prune|reader> start=<id> tsep=<x> [q=<x>] [paths=<x,…|-> exact=<0|1> sep=<x>] md=<n>
+ hist=<op;op;…|-> T <tree>`
+ops: `<o|r>.P.<v>.<p>` (v.parent = p) · `.D.<v>` (v.parent = None) · `.X.<v>` (del v.children) ·
+`.A.<v>.<xkey>.<val>` (set_attrs) · `.N.<v>.<xname>` (rename); `o` = node of the input tree by
+pre-order id, `r` = node of the returned tree's component by pre-order index at return time.
+→ `ok ret=<r-index|-> orig=<cells> res=<cells|->` | `err:<class> orig=<cells>`;
+a cell is `<parent>|<children>|<xname>|<attrs sorted by key>`, cells joined by `;`. -/
 namespace Drv.C07
-def handle (_toks : List String) : String := "unimplemented"
+open Proto CopyStore
+
+def splitAtTok (toks : List String) (t : String) : List String × List String :=
+  (toks.takeWhile (· ≠ t), (toks.dropWhile (· ≠ t)).drop 1)
+
+def parseStrs (s : String) : Option (List Str) :=
+  if s == "-" then some [] else (s.splitOn ",").mapM unhex
+
+mutual
+/-- cells of a tree whose ids are its pre-order indices, listed in pre-order -/
+def cellsFix (parent : Option Nat) : Tree → List Cell
+  | .node i n av cs => ⟨parent, cs.map Tree.id, n, av⟩ :: cellsFixL (some i) cs
+def cellsFixL (parent : Option Nat) : List Tree → List Cell
+  | [] => []
+  | c :: cs => cellsFix parent c ++ cellsFixL parent cs
+end
+
+def storeOf (t : Tree) : Store := ⟨cellsFix none t⟩
+
+def sortAttrs (a : Attrs) : Attrs := a.mergeSort fun x y => decide (x.1 ≤ y.1)
+
+structure Ctx where
+  n0 : Nat
+  res : List Nat
+
+def Ctx.ref (c : Ctx) (i : Nat) : String :=
+  if i < c.n0 then "o" ++ toString i
+  else match c.res.idxOf? i with
+    | some j => "r" ++ toString j
+    | none => "?"
+
+def showCell (c : Ctx) (x : Cell) : String :=
+  (match x.parent with | none => "-" | some p => c.ref p) ++ "|"
+    ++ (if x.children.isEmpty then "-" else ",".intercalate (x.children.map c.ref)) ++ "|"
+    ++ hex x.name ++ "|" ++ showAttrs (sortAttrs x.attrs)
+
+def showCells (c : Ctx) (s : Store) (ids : List Nat) : String :=
+  if ids.isEmpty then "-" else
+  ";".intercalate (ids.map fun i => match s.cell? i with | some x => showCell c x | none => "?")
+
+def parseOp (c : Ctx) (tok : String) : Option (Option Op) :=
+  -- `some none` = an operation the model ignores (index out of range on that side)
+  match tok.splitOn "." with
+  | side :: kind :: rest => do
+    let node : String → Option (Option Nat) := fun t => do
+      let k ← t.toNat?
+      if side == "o" then pure (if k < c.n0 then some k else none)
+      else if side == "r" then pure c.res[k]?
+      else none
+    match kind, rest with
+    | "P", [v, p] => do
+      let v ← node v; let p ← node p
+      pure (do let v ← v; let p ← p; pure (Op.setParent v (some p)))
+    | "D", [v] => do let v ← node v; pure (v.map fun v => Op.setParent v none)
+    | "X", [v] => do let v ← node v; pure (v.map Op.delChildren)
+    | "A", [v, k, x] => do
+      let v ← node v; let k ← unhex k; let x ← parseVal x
+      pure (v.map fun v => Op.setAttr v k x)
+    | "N", [v, nm] => do let v ← node v; let nm ← unhex nm; pure (v.map fun v => Op.setName v nm)
+    | _, _ => none
+  | _ => none
+
+def parseHist (c : Ctx) (s : String) : Option (List Op) :=
+  if s == "-" then some [] else do
+    let ops ← (s.splitOn ";").mapM (parseOp c)
+    pure (ops.filterMap id)
+
+def errName : Helper.Err → String
+  | .notFound => "NotFoundError"
+  | .valueError => "ValueError"
+  | _ => "rej"
+
+def handle (toks : List String) : String :=
+  let r : Option String := do
+    let fn ← kv toks "fn"
+    let start ← (← kv toks "start").toNat?
+    let tsep ← unhex (← kv toks "tsep")
+    let hist ← kv toks "hist"
+    let (_, rest) := splitAtTok toks "T"
+    let (t, _) ← parseTree rest
+    let s0 := storeOf t
+    let n0 := s0.n
+    let origIds := List.range n0
+    let call : Option (Except Helper.Err (Store × Option Nat)) :=
+      match fn with
+      | "reader" => some (.ok (s0, none))
+      | "copy" => let c := deepCopy s0 start; some (.ok (c.1, some c.2))
+      | "clone" => let c := cloneA s0 start; some (.ok (c.1, some c.2))
+      | "subtree" => do
+        let q ← unhex (← kv toks "q")
+        let md ← (← kv toks "md").toNat?
+        pure ((getSubtreeA tsep s0 start q md).map fun x => (x.1, some x.2))
+      | "prune" => do
+        let md ← (← kv toks "md").toNat?
+        let sep ← unhex (← kv toks "sep")
+        let exact ← match (← kv toks "exact") with | "0" => some false | "1" => some true | _ => none
+        let paths ← parseStrs (← kv toks "paths")
+        pure ((pruneA tsep s0 start paths exact sep md).map fun x => (x.1, some x.2))
+      | _ => none
+    match ← call with
+    | .error e =>
+      let c : Ctx := ⟨n0, []⟩
+      let ops ← parseHist c hist
+      pure ("err:" ++ errName e ++ " orig=" ++ showCells c (run s0 ops) origIds)
+    | .ok (s1, ret) =>
+      let res : List Nat := match ret with
+        | none => []
+        | some w => treeIds (toTree s1 s1.n (rootOf s1 s1.n w))
+      let c : Ctx := ⟨n0, res⟩
+      let ops ← parseHist c hist
+      let s2 := run s1 ops
+      pure ("ok ret=" ++ (match ret with | none => "-" | some w => c.ref w)
+        ++ " orig=" ++ showCells c s2 origIds ++ " res=" ++ showCells c s2 res)
+  r.getD "bad-op"
 end Drv.C07
